@@ -209,85 +209,67 @@ theorem C02_progress_needs_release_witness :
 def closeCount (progs : List (List Op)) : Nat := (progs.map closesIn).sum
 
 /-
-Full statement (false of the code, see the two witnesses below and `known_findings/C02.json`):
-  with a concurrent `close()` every op ends (never hangs) with a result in
-  {ok, closedPool, emptyPool, failed}.
-Proved instead: the result classes for ALL configurations with the precise situations that
-produce the exceptions.
+The "never hangs" half of the property text is false of the code (`C02_close_strands_waiter_witness`,
+`known_findings/C02.json`); the "no internal error" half is proved in full:
 -/
 
-/-- **Close race (partial).**  Under every schedule, with any number of concurrent `close()`
-calls, every finished op has a result in {`ok`, `closedPool`, `emptyPool`, `failed`} — never
-`FullPoolError`, never a foreign response — except for an internal error (`AttributeError`) in
-exactly two situations: a request / `release_conn` of a **`block=False`** pool (the
-`self.pool.qsize()` argument of the "pool is full" warning, known finding) raced by a `close()`, and
-a `close()` when the programs contain **at least two** `close()` calls (the second closer passes `None` to
-`_close_pool_connections`). -/
-theorem C02_close_race_partial (cfg : Cfg) (progs : List (List Op)) (σ : List Nat) :
+/-- **Close race.**  Under every schedule, with any number of concurrent `close()` calls, on every
+pool (`block` or not, any `maxsize`, any number of threads), every finished op has a result in
+{`ok`, `closedPool`, `emptyPool`, `failed`}: never `FullPoolError`, never a foreign response, never
+an internal error (`AttributeError`) — `_put_conn` reports the size of the queue object it found
+full, not of `self.pool`, and a `close()` that finds the pool already swapped out returns. -/
+theorem C02_close_race (cfg : Cfg) (progs : List (List Op)) (σ : List Nat) :
     ∀ rs ∈ results (run cfg progs σ), ∀ p ∈ rs,
-      p.2 = .ok ∨ p.2 = .closedPool ∨ p.2 = .emptyPool ∨ p.2 = .failed ∨
-      (p.2 = .internalErr ∧ p.1 ≠ .close ∧ cfg.block = false ∧ 1 ≤ closeCount progs) ∨
-      (p.2 = .internalErr ∧ p.1 = .close ∧ 2 ≤ closeCount progs) := by
+      p.2 = .ok ∨ p.2 = .closedPool ∨ p.2 = .emptyPool ∨ p.2 = .failed := by
   intro rs hrs p hp
   have hi := invAll_run cfg progs σ
   simp only [results, List.mem_map] at hrs
   obtain ⟨th, hth, rfl⟩ := hrs
   obtain ⟨t, g⟩ := List.getElem?_of_mem hth
-  have h := hi.res.good t th g p hp
-  have hc : (run cfg progs σ).cfg = cfg := by simp [run, init]
-  have hn : closeTotal (run cfg progs σ) = closeCount progs := by
-    rw [run, closeTotal_runFrom, closeTotal_init]; rfl
-  rw [hc, hn] at h
-  exact h
+  exact hi.res.good t th g p hp
 
-/-- **Close race, `block=True`, one closer.**  A `block=True` pool raced by at most one `close()`:
-every finished op ended normally, with `ClosedPoolError`, `EmptyPoolError` or its scripted failure
-— no internal error at all. -/
-theorem C02_close_race_block (cfg : Cfg) (progs : List (List Op)) (σ : List Nat)
-    (hb : cfg.block = true) (h1 : closeCount progs ≤ 1) :
-    ∀ rs ∈ results (run cfg progs σ), ∀ p ∈ rs,
-      p.2 = .ok ∨ p.2 = .closedPool ∨ p.2 = .emptyPool ∨ p.2 = .failed := by
-  intro rs hrs p hp
-  rcases C02_close_race_partial cfg progs σ rs hrs p hp with h | h | h | h | h | h
-  · exact Or.inl h
-  · exact Or.inr (Or.inl h)
-  · exact Or.inr (Or.inr (Or.inl h))
-  · exact Or.inr (Or.inr (Or.inr h))
-  · simp [hb] at h
-  · omega
-
-/-- non-vacuity: a racing `close()` on a `block=True` pool does produce `ClosedPoolError` -/
-example : closeCount [[.req 0 .ok false], [.close]] ≤ 1 ∧
+/-- the race is real: a racing `close()` on a `block=True` pool does produce `ClosedPoolError` -/
+example :
     results (run ⟨1, true, true⟩ [[.req 0 .ok false], [.close]] [1, 1, 1, 1, 1, 0]) =
       [[(.req 0 .ok false, .closedPool)], [(.close, .ok)]] := by decide
 
+/-- **Close race, `block=True`.**  A `block=True` pool raced by any number of `close()` calls: under
+every schedule no `_put_conn` ever finds the queue full — the `FullPoolError` "that should never
+happen" never happens, no connection is discarded, the "pool is full" warning is never reached —
+and every finished op ended normally, with `ClosedPoolError`, `EmptyPoolError` or its scripted
+failure. -/
+theorem C02_close_race_block (cfg : Cfg) (progs : List (List Op)) (σ : List Nat)
+    (hb : cfg.block = true) :
+    (∀ th ∈ (run cfg progs σ).threads, ∀ i k, th.pc ≠ .fullClose i k ∧ th.pc ≠ .warn i k) ∧
+    ∀ rs ∈ results (run cfg progs σ), ∀ p ∈ rs,
+      p.2 = .ok ∨ p.2 = .closedPool ∨ p.2 = .emptyPool ∨ p.2 = .failed := by
+  refine ⟨?_, C02_close_race cfg progs σ⟩
+  intro th hth
+  obtain ⟨t, g⟩ := List.getElem?_of_mem hth
+  have hc : (run cfg progs σ).cfg = cfg := by simp [run, init]
+  exact (invAll_run cfg progs σ).cnt.nofull (by rw [hc]; exact hb) t th g
+
+/-- non-vacuity: two closers and a request on a `block=True` pool, the request loses the race -/
+example :
+    results (run ⟨1, true, true⟩ [[.req 0 .ok false], [.close], [.close]] [1, 2, 1, 1, 1, 0, 2]) =
+      [[(.req 0 .ok false, .closedPool)], [(.close, .ok)], [(.close, .ok)]] := by decide
+
 /-- **Close race, few threads.**  At most `maxsize` threads, each holding at most one lease at a
 time (streaming responses released before the next request / the end; `close` ops allowed
-anywhere), any `block`: under every schedule no `_put_conn` ever finds the queue full, so the
-internal error of finding 2 cannot arise — every request / `release_conn` ends `ok`,
-`closedPool`, `emptyPool` or `failed`, and only a second concurrent `close()` can fail. -/
+anywhere), any `block`: under every schedule no `_put_conn` ever finds the queue full (no
+connection is discarded, no "pool is full" warning), and every op ends `ok`, `closedPool`,
+`emptyPool` or `failed`. -/
 theorem C02_close_race_few_threads (cfg : Cfg) (progs : List (List Op)) (σ : List Nat)
     (h : FewThreads cfg progs) :
-    (∀ th ∈ (run cfg progs σ).threads, ∀ i k, th.pc ≠ .fullClose i k ∧ th.pc ≠ .warnLoad i k) ∧
+    (∀ th ∈ (run cfg progs σ).threads, ∀ i k, th.pc ≠ .fullClose i k ∧ th.pc ≠ .warn i k) ∧
     ∀ rs ∈ results (run cfg progs σ), ∀ p ∈ rs,
-      p.2 = .ok ∨ p.2 = .closedPool ∨ p.2 = .emptyPool ∨ p.2 = .failed ∨
-      (p.2 = .internalErr ∧ p.1 = .close ∧ 2 ≤ closeCount progs) := by
+      p.2 = .ok ∨ p.2 = .closedPool ∨ p.2 = .emptyPool ∨ p.2 = .failed := by
   have hq := invQ_run h σ
   constructor
   · intro th hth
     obtain ⟨t, g⟩ := List.getElem?_of_mem hth
     exact hq.nofull t th g
-  · intro rs hrs p hp
-    rcases C02_close_race_partial cfg progs σ rs hrs p hp with h1 | h1 | h1 | h1 | h1 | h1
-    · exact Or.inl h1
-    · exact Or.inr (Or.inl h1)
-    · exact Or.inr (Or.inr (Or.inl h1))
-    · exact Or.inr (Or.inr (Or.inr (Or.inl h1)))
-    · simp only [results, List.mem_map] at hrs
-      obtain ⟨th, hth, rfl⟩ := hrs
-      obtain ⟨t, g⟩ := List.getElem?_of_mem hth
-      exact absurd (hq.noerr t th g p hp h1.1) h1.2.1
-    · exact Or.inr (Or.inr (Or.inr (Or.inr h1)))
+  · exact C02_close_race cfg progs σ
 
 /-- non-vacuity: two threads on a `block=False` pool of size 2, one of them closing the pool -/
 example : FewThreads ⟨2, false, false⟩ [[.req 0 .ok true, .release, .close], [.req 1 .ok false]] := by
@@ -356,57 +338,49 @@ theorem C02_no_close_results (cfg : Cfg) (progs : List (List Op)) (σ : List Nat
       (p.2 = .emptyPool ∧ cfg.block = true ∧ cfg.timeout = true ∧ ∃ f l st, p.1 = .req f l st) := by
   intro rs hrs p hp
   obtain ⟨h1, h2, h3, h4⟩ := C02_results_as_scripted cfg progs σ rs hrs p hp
-  rcases C02_close_race_partial cfg progs σ rs hrs p hp with h | h | h | h | h | h
+  rcases C02_close_race cfg progs σ rs hrs p hp with h | h | h | h
   · exact Or.inl ⟨h, h4 h⟩
   · have := (h1 h).1; omega
   · exact Or.inr (Or.inr ⟨h, h2 h⟩)
   · exact Or.inr (Or.inl ⟨h, h3 h⟩)
-  · have := h.2.2.2; omega
-  · have := h.2.2; omega
 
 /-- non-vacuity: a retried request on a pool without closer ends `ok` -/
 example : closeCount [[.req 1 .ok false]] = 0 ∧
     results (run ⟨1, true, false⟩ [[.req 1 .ok false]] (List.replicate 16 0)) =
       [[(.req 1 .ok false, .ok)]] := by decide
 
-/-- **Where the internal error arises.**  From every reachable configuration, a step of thread `t`
-adds an `internalErr` result only when `self.pool` is already `None` and the thread is at the
-`self.pool.qsize()` step of `_put_conn` (reached only through `queue.Full` on a `block=False`
-pool) or at the swap of a second `close()`; it never adds `fullPool` or `wrongResp`. -/
+/-- **No step raises an internal error.**  From every reachable configuration, whatever `self.pool`
+is by now, a step of thread `t` adds only results in {`ok`, `closedPool`, `emptyPool`, `failed`}:
+in particular the step after `queue.Full` (`warn`: `pool.qsize()` on the queue object the thread
+bound before `put`) and the swap of a second `close()` go through with `self.pool = None`. -/
 theorem C02_close_race_step (cfg : Cfg) (progs : List (List Op)) (σ : List Nat) (t : Nat)
     (s' : State) (h : step (run cfg progs σ) t = some s') :
     ∃ th th', (run cfg progs σ).threads[t]? = some th ∧ s'.threads[t]? = some th' ∧
       ∀ p ∈ th'.results, p ∈ th.results ∨
-        p.2 = .ok ∨ p.2 = .closedPool ∨ p.2 = .emptyPool ∨ p.2 = .failed ∨
-        (p.2 = .internalErr ∧ (run cfg progs σ).sh.poolRef = none ∧ cfg.block = false ∧
-          ∃ i k, th.pc = .warnLoad i k) ∨
-        (p.2 = .internalErr ∧ (run cfg progs σ).sh.poolRef = none ∧ th.pc = .closeSwap) := by
+        p.2 = .ok ∨ p.2 = .closedPool ∨ p.2 = .emptyPool ∨ p.2 = .failed := by
   have hi := invAll_run cfg progs σ
-  have hc : (run cfg progs σ).cfg = cfg := by simp [run, init]
   obtain ⟨th, sh', th', hget, hts, rfl⟩ := step_some h
   refine ⟨th, th', hget, by simp [getElem?_set_of_get hget], ?_⟩
   intro p hp
   rcases tstep_results_mem hts (hi.ids.recv _ _ hget) (hi.ids.cont _ _ hget) p hp with
-    h1 | h1 | h1 | h1 | h1 | ⟨-, hblock, i, k, hpc⟩ | ⟨h1, hnone, ⟨i, k, hpc⟩ | hpc⟩
+    h1 | h1 | h1 | h1 | h1 | ⟨-, hblock, i, k, hpc⟩
   · exact Or.inl h1
   · exact Or.inr (Or.inl h1)
   · exact Or.inr (Or.inr (Or.inl h1))
   · exact Or.inr (Or.inr (Or.inr (Or.inl h1)))
-  · exact Or.inr (Or.inr (Or.inr (Or.inr (Or.inl h1))))
+  · exact Or.inr (Or.inr (Or.inr (Or.inr h1)))
   · exact absurd hpc (hi.cnt.nofull hblock _ _ hget i k).1
-  · refine Or.inr (Or.inr (Or.inr (Or.inr (Or.inr (Or.inl ⟨h1, hnone, ?_, i, k, hpc⟩)))))
-    rw [← hc]
-    cases hbl : (run cfg progs σ).cfg.block with
-    | false => rfl
-    | true => exact absurd hpc (hi.cnt.nofull hbl _ _ hget i k).2
-  · exact Or.inr (Or.inr (Or.inr (Or.inr (Or.inr (Or.inr ⟨h1, hnone, hpc⟩)))))
 
-/-- non-vacuity: the schedule of finding 2 reaches such a step -/
-example : ∃ s', step (run ⟨1, false, false⟩ [[.req 0 .ok false], [.req 0 .ok false], [.close]]
-    [0, 0, 0, 1, 1, 1, 1, 1, 1, 1, 1, 0, 0, 0, 0, 0, 0, 2, 2]) 0 = some s' := by
-  exact ⟨_, rfl⟩
+/-- non-vacuity: the schedule of the repaired finding 2 reaches the `warn` step with
+`self.pool = None`, and the step exists -/
+example :
+    let s := run ⟨1, false, false⟩ [[.req 0 .ok false], [.req 0 .ok false], [.close]]
+      [0, 0, 0, 1, 1, 1, 1, 1, 1, 1, 1, 0, 0, 0, 0, 0, 0, 2, 2]
+    s.sh.poolRef = none ∧ (s.threads.map (·.pc))[0]? = some (.warn (some 0) (.fin .ok)) ∧
+      (step s 0).isSome = true := by decide
 
-/-! ## The two ways in which the code (and therefore the model) violates the property text -/
+/-! ## The way in which the code (and therefore the model) violates the property text, and the
+two repaired races on their old failing schedules -/
 
 /-- **Finding 1 (hang).**  `block=True`, no `pool_timeout`, one request racing one `close()`:
 the request passes both `self.pool` loads, `close()` swaps the attribute and drains the queue, and
@@ -419,22 +393,27 @@ theorem C02_close_strands_waiter_witness :
   refine ⟨by decide, by decide, by decide, by decide, ?_⟩
   exact runFrom_of_stuck (by decide)
 
-/-- **Finding 2 (internal error).**  `block=False`, `maxsize=1`, two requests and a `close()`:
-the second `_put_conn` finds the queue full, `close()` sets `self.pool = None`, and the argument
-`self.pool.qsize()` of the "pool is full" warning raises `AttributeError` out of `urlopen`. -/
-theorem C02_close_race_internal_error_witness :
+/-- **Repaired finding 2 (was: internal error).**  `block=False`, `maxsize=1`, two requests and a
+`close()`, on the schedule that used to raise: the second `_put_conn` finds the queue full,
+`close()` sets `self.pool = None` (and takes the queued connection), the thread is at the "pool is
+full" warning — whose argument is now `pool.qsize()` on the queue it found full — and the request
+completes normally with its own response; before the repair (`self.pool.qsize()`) this schedule
+ended with `AttributeError` out of `urlopen`. -/
+theorem C02_close_race_full_warning_ok :
     let s := run ⟨1, false, false⟩ [[.req 0 .ok false], [.req 0 .ok false], [.close]]
-      [0, 0, 0, 1, 1, 1, 1, 1, 1, 1, 1, 0, 0, 0, 0, 0, 0, 2, 2, 0]
-    (s.threads.map (·.results))[0]? = some [(.req 0 .ok false, .internalErr)] := by decide
+      [0, 0, 0, 1, 1, 1, 1, 1, 1, 1, 1, 0, 0, 0, 0, 0, 0, 2, 2]
+    s.sh.poolRef = none ∧ (s.threads.map (·.pc))[0]? = some (.warn (some 0) (.fin .ok)) ∧
+    (results (runFrom s [0, 0]))[0]? = some [(.req 0 .ok false, .ok)] := by decide
 
-/-- **Third excluded case (two concurrent `close()` calls).**  Both closers pass
-`if self.pool is None`, the first swaps, the second swaps `None` out and calls
-`_close_pool_connections(None)`: `AttributeError`.  (Outside the property's quantifier — at most
-one closing thread — hence not a listed finding; it is why `C02_close_race_partial` has its last
-disjunct.) -/
-theorem C02_double_close_internal_error_witness :
-    results (run ⟨1, false, false⟩ [[.close], [.close]] [0, 1, 0, 1]) =
-      [[], [(.close, .internalErr)]] := by decide
+/-- **Repaired double `close()` (was: internal error).**  Two concurrent `close()` calls on the
+schedule that used to raise (`_close_pool_connections(None)`): the first swaps the queue out, the
+second swaps `None` out, sees `old_pool is None` and returns; the first drains.  Both end
+normally.  (Outside the property's quantifier — at most one closing thread — but it is what makes
+`C02_close_race` hold for any number of closers.) -/
+theorem C02_double_close_ok :
+    results (run ⟨1, false, false⟩ [[.close], [.close]] [0, 1, 0, 1]) = [[], [(.close, .ok)]] ∧
+    results (run ⟨1, false, false⟩ [[.close], [.close]] [0, 1, 0, 1, 0, 0]) =
+      [[(.close, .ok)], [(.close, .ok)]] := by decide
 
 /-! ## Dropping the closed pool closes everything -/
 
